@@ -58,6 +58,11 @@ func VerifC09Quota() {
 				if tu0+uu0 >= q {
 					zzverif.Reach("C09.quota.refused-at-the-limit")
 				}
+				// quota given back by closes is really available again: with no live proxy at all
+				// nothing can be counted against the session
+				if len(live) == 0 {
+					zzverif.Fail("C09.quota.session-without-proxies-is-not-refused-for-quota")
+				}
 			}
 		}
 		_, tu := svr.rc.TCPPortManager.ZZCounts()
@@ -67,5 +72,8 @@ func VerifC09Quota() {
 		used := ctl.portsUsedNum
 		ctl.mu.Unlock()
 		zzverif.Assert(used >= tu+uu && used <= q, "C09.quota.counter-covers-what-is-bound")
+		if len(live) == 0 {
+			zzverif.Assert(used == 0, "C09.quota.nothing-counted-once-everything-is-closed")
+		}
 	}
 }
